@@ -44,6 +44,12 @@ func ParserLanguage() []*Grammar {
 		{"P-adjlists3", "s = g B* D ; g = LB @list(A,COMMA) RB", "accept"},
 		{"P-adjfilter", "s = A+ B*! C", "accept"},
 		{"P-adjopt", "s = A+ @list(B,COMMA)? C", "accept"},
+		// two lists over one element with different separators (helper rules must
+		// not be shared), plain, optional and with rules as separators
+		{"P-twolists", "s = @list(A,COMMA) X @list(A,SEMI)", "accept"},
+		{"P-twolists-opt", "s = @list(A,COMMA)? X @list(A,SEMI)?", "accept"},
+		{"P-twolists-rule", "s = @list(a,c) X @list(a,d) ; a = A ; c = COMMA ; d = SEMI | COMMA", "accept"},
+		{"P-twocards", "s = a* X a+ Y a? ; a = A", "accept"},
 	}
 	var out []*Grammar
 	for _, s := range src {
@@ -74,6 +80,7 @@ func WithNaming(gs []*Grammar) []*Grammar {
 		c := MustGrammar(g.Name+"~B", g.Src)
 		c.Expect = g.Expect
 		c.OnBounds = g.OnBounds
+		c.MaxN = g.MaxN
 		c.Naming = "B"
 		out = append(out, c)
 	}
@@ -86,6 +93,7 @@ func WithBounds(gs []*Grammar) []*Grammar {
 	for _, g := range gs {
 		c := MustGrammar(g.Name+"+B", g.Src)
 		c.Expect = g.Expect
+		c.MaxN = g.MaxN
 		c.OnBounds = true
 		out = append(out, c)
 	}
@@ -211,6 +219,15 @@ func LexGreedy() []*LexSpec {
 		{"L-loopstart", "A = 'x'* 'y'\nB = 'z'"},
 		{"L-loopstart2", "A = ('a'|'b')* 'c'"},
 		{"L-nul", "S = '\"' ~[\"]* '\"'\nW = [a-z]+\nN = '\\x00' '!'\nANY = ."},
+		// a later, more general rule whose accepting state looks like the state
+		// shared with an earlier rule (minimisation must keep them apart)
+		{"L-opassign", "INC = '++'\nSUB_ASSIGN = '-='\nOP_ASSIGN = [+\\-] '='\nNUM = [0-9]+"},
+		{"L-units", "MS = 'ms'\nKB = 'kb'\nSIZE = [km] 'b'"},
+		{"L-shift", "SHL = '<<'\nGE = '>='\nCMPEQ = [<>] '='"},
+		// loops whose body can match the empty string (ε cycles in the NFA)
+		{"L-nullbody", "WORD = [a-c] ([a-c]* '-'?)*\nNUM = [0-9]+"},
+		{"L-nullbody2", "A = 'x' ('a'?)* 'y'\nB = ('p'* 'q'*)+ 'r'\nC = ('m'? 'n'?)+"},
+		{"L-nullbody3", "A = (('a'|'b'?)* 'c'?)* 'd'\nB = 'a'+"},
 	})
 }
 
@@ -312,4 +329,45 @@ func ParserLanguageAll(full bool) []*Grammar {
 		}
 	}
 	return append(base, WithNaming(pick)...)
+}
+
+// ParserConflicts: items for C04 whose verdict hangs on look-aheads (grammars
+// that are LR(1) but not LALR(1), LALR(1) but not SLR(1), conflicts that only
+// show with a look-ahead brought in through a self-loop of the automaton, ...).
+// None carries a precedence qualifier.
+func ParserConflicts() []*Grammar {
+	src := [][3]string{
+		{"K-lalr-not-slr", "s = l EQ r | r ; l = STAR r | ID ; r = l", "accept"},
+		{"K-lr1-not-lalr", "s = A x D | B y D | A y E | B x E ; x = C ; y = C", "reject"},
+		{"K-lr1-not-lalr2", "s = A x D | B y D | A y E | B x E ; x = C z ; y = C z ; z = Z | @empty", "reject"},
+		{"K-dangling", "s = IF s | IF s ELSE s | X", "reject"},
+		{"K-binary", "e = e PLUS e | N", "reject"},
+		{"K-rr", "s = a | b ; a = X ; b = X", "reject"},
+		{"K-rr-la", "s = a P | b Q ; a = X ; b = X", "accept"},
+		{"K-selfloop-ok", "top = rec ; rec = zed rec C | Y ; zed = Z", "accept"},
+		{"K-selfloop-conflict", "top = rec ; rec = zed rec C | zed rec C C | Y ; zed = Z", "reject"},
+		{"K-selfloop-conflict2", "top = rec ; rec = zed rec C | zed rec | Y ; zed = Z", "reject"},
+		{"K-nullable-la", "s = a b C | a D ; a = A | @empty ; b = B | @empty", "accept"},
+		{"K-nullable-conflict", "s = a b C ; a = A | @empty ; b = A | @empty", "reject"},
+		{"K-opt-conflict", "s = A? A? B", "reject"},
+		{"K-star-star", "s = A* A* B", "reject"},
+		{"K-list-trailing", "s = @list(A, C) C?", "accept"},
+		{"K-list-trailing2", "s = @list(A, C) C? A?", "reject"},
+		{"K-list-ok", "s = @list(A, C) D?", "accept"},
+		{"K-err", "s = s x | x ; x = A SEMI | @error SEMI", "accept"},
+		{"K-err-conflict", "s = x | @error ; x = A | @error", "reject"},
+		{"K-deep-la", "s = a X | b Y ; a = c ; b = c2 ; c = d ; c2 = d2 ; d = Q ; d2 = Q", "accept"},
+		{"K-deep-conflict", "s = a X | b X ; a = c ; b = c2 ; c = d ; c2 = d2 ; d = Q ; d2 = Q", "reject"},
+		{"K-palin", "s = A s A | B s B | C", "accept"},
+		{"K-palin-even", "s = A s A | B s B | @empty", "reject"},
+		{"K-cycle", "s = s | A", "reject"},
+		{"K-unreachable-conflict", "s = A ; u = u u | B", "accept"},
+	}
+	var out []*Grammar
+	for _, s := range src {
+		g := MustGrammar(s[0], s[1])
+		g.Expect = s[2]
+		out = append(out, g)
+	}
+	return append(out, WithNaming(out)...)
 }
